@@ -29,7 +29,7 @@ ASSUMPTIONS = [
     "offline reference is the library's own EmulsionTimeCourse.from_storage / get_length_scale (the property is the agreement between the two paths)",
 ]
 DEDUPE = False
-FIELDS = ["zeros", "one", "two", "moved", "ones", "noise"]
+FIELDS = ["zeros", "one", "two", "moved", "ones", "noise", "scaled"]  # "scaled" = 3 * two - 1: other intensity levels than the rest
 TIMES = {"unit": [0, 1, 2, 3], "floats": [0.25, 0.75, 2.0, 2.125], "repeated": [0, 1, 1, 1.5]}  # equal consecutive time stamps are valid input
 
 
@@ -48,6 +48,8 @@ def make_field(gk, name):
 
     g = grids()[gk]
     grid = geom.make_grid(g)
+    if name == "scaled":
+        return make_field(gk, "two") * 3.0 - 1.0
     if name == "zeros":
         return ScalarField(grid, 0.0)
     if name == "ones":
@@ -85,7 +87,11 @@ def blocks(tier, seed):
     out = []
     for gk in grids():
         for si, st in enumerate(settings_menu(gk, tier)):
-            out.append({"part": "droplet", "grid": gk, "settings": st, "tier": tier})
+            if st["refine"]:
+                for first in [None] + [f for f in FIELDS if f != "noise"]:  # one block per first field (parallelism)
+                    out.append({"part": "droplet", "grid": gk, "settings": st, "tier": tier, "first": first})
+            else:
+                out.append({"part": "droplet", "grid": gk, "settings": st, "tier": tier})
         for method in ("structure_factor_mean", "structure_factor_maximum", "droplet_detection"):
             out.append({"part": "length", "grid": gk, "method": method})
     out.append({"part": "long"})
@@ -107,11 +113,17 @@ def cases(block):
         if st["refine"] and block["tier"] == "thorough":
             maxlen = 3
         for seq in sequences(maxlen, alphabet):
-            if len(seq) == 3 and block["tier"] != "thorough" and not set(seq) <= {"zeros", "one", "two", "noise"}:
+            if "first" in block and (seq[0] if seq else None) != block["first"]:
+                continue
+            if len(seq) == 3 and block["tier"] != "thorough" and not set(seq) <= {"zeros", "one", "scaled", "noise"}:
                 continue  # quick tier: length-3 sequences over a 4-field sub-alphabet (all of them)
             full = len(seq) == maxlen
-            for tv in (TIMES if full or len(seq) == 0 else ["unit"]):
-                for source in (("none", "index", "callable") if len(seq) in (0, 2) else ("none",)):
+            if st["refine"] and len(seq) >= 2:
+                # fits dominate the cost: time variant and source selection are varied together instead of as a product
+                combos = [("unit", "none"), ("floats", "index"), ("repeated", "callable")]
+            else:
+                combos = [(tv, source) for tv in (TIMES if full or len(seq) == 0 else ["unit"]) for source in (("none", "index", "callable") if len(seq) in (0, 2) else ("none",))]
+            for tv, source in combos:
                     for prefilled in ((False, True) if len(seq) <= 1 else (False,)):
                         yield {"part": p, "grid": block["grid"], "settings": st, "seq": list(seq), "times": tv, "source": source, "prefilled": prefilled}
     elif p == "length":
@@ -235,8 +247,21 @@ def run_droplet(case, ctx):
         lib_eq = bool(got == ref)
     except Exception as e:  # noqa  (the library's == may raise when the two sides hold droplets of different classes/layouts)
         lib_eq = False
-    ctx.check("C14.equals-offline", lib_eq and etc_equal(got, ref), {"library_eq": lib_eq, "online": [[float(t), [str(d) for d in e]] for t, e in got.items()][:3], "offline": [[float(t), [str(d) for d in e]] for t, e in ref.items()][:3]}, tags)
+    ctx.check("C14.equals-offline", "C14.equals-framewise", lib_eq and etc_equal(got, ref), {"library_eq": lib_eq, "online": [[float(t), [str(d) for d in e]] for t, e in got.items()][:3], "offline": [[float(t), [str(d) for d in e]] for t, e in ref.items()][:3]}, tags)
     ctx.check("C14.times", [float(t) for t in got.times] == [float(t) for t in times], {"got": list(got.times), "want": times}, tags)
+    # "frame by frame": every stored field analysed on its own with an equal but FRESH copy of the settings
+    import copy
+
+    from droplets import locate_droplets
+
+    try:
+        fw = [locate_droplets(f, threshold=st["threshold"], minimal_radius=st["minimal_radius"], modes=st["perturbation_modes"], refine=st["refine"],
+                              refine_args=copy.deepcopy(st["refine_args"]) if st["refine_args"] is not None else None) for f in fields]
+        ctx.op(len(fields))
+        same = len(fw) == len(got.emulsions) and all(ekey(a) == ekey(b) for a, b in zip(got.emulsions, fw))
+        ctx.check("C14.equals-framewise", same, {"online": [[str(d) for d in e] for e in got.emulsions][:3], "framewise": [[str(d) for d in e] for e in fw][:3]}, tags)
+    except Exception as e:  # noqa
+        ctx.check("C14.equals-framewise", False, {"exc": repr(e)[:300]}, tags)
     if any(len(e) for e in ref):
         ctx.count("frames-with-droplets")
     if any(len(e) == 0 for e in ref) and any(len(e) for e in ref):
@@ -359,5 +384,5 @@ def run_solver(case, ctx):
 
 
 def expected_positive(tier):
-    return ["C14.equals-offline", "C14.file", "C14.ls-value", "C14.ls-file", "C14.ls-no-raise", "C14.times", "C14.prefilled-kept", "frames-with-droplets",
+    return ["C14.equals-offline", "C14.equals-framewise", "C14.file", "C14.ls-value", "C14.ls-file", "C14.ls-no-raise", "C14.times", "C14.prefilled-kept", "frames-with-droplets",
             "mixture-of-empty-and-non-empty-frames", "length-analysis-raises", "finite-length-scales", "sequences-with->=11-frames", "real-solver-runs"]
